@@ -246,3 +246,52 @@ fn nodes_into_order(mut nodes: IndexMap<NaiveDateTime, Number>, ad: ADOrder, id:
         }
     }
 }
+
+/// Verification hooks: crate-visible access to the Python-facing `Curve` entry points.
+/// Compiled only with the `verif-hooks` feature.
+#[cfg(feature = "verif-hooks")]
+impl Curve {
+    #[allow(clippy::too_many_arguments)]
+    pub(crate) fn verif_new(
+        nodes: IndexMap<NaiveDateTime, Number>,
+        interpolator: CurveInterpolator,
+        ad: ADOrder,
+        id: String,
+        convention: Convention,
+        modifier: Modifier,
+        calendar: CalType,
+        index_base: Option<f64>,
+    ) -> PyResult<Self> {
+        Self::new_py(
+            nodes,
+            interpolator,
+            ad,
+            id,
+            convention,
+            modifier,
+            calendar,
+            index_base,
+        )
+    }
+    pub(crate) fn verif_inner(&self) -> &CurveDF<CurveInterpolator, CalType> {
+        &self.inner
+    }
+    pub(crate) fn verif_getitem(&self, date: NaiveDateTime) -> Number {
+        self.__getitem__(date)
+    }
+    pub(crate) fn verif_index_value(&self, date: NaiveDateTime) -> PyResult<Number> {
+        self.index_value_py(date)
+    }
+    pub(crate) fn verif_set_ad_order(&mut self, ad: ADOrder) -> PyResult<()> {
+        self.set_ad_order(ad)
+    }
+    pub(crate) fn verif_eq(&self, other: Curve) -> bool {
+        self.__eq__(other)
+    }
+    pub(crate) fn verif_to_json(&self) -> PyResult<String> {
+        self.to_json_py()
+    }
+    pub(crate) fn verif_nodes(&self) -> IndexMap<NaiveDateTime, Number> {
+        self.nodes()
+    }
+}
